@@ -13,6 +13,7 @@ VERUS_UNITS = {
     'complex-ast': dict(unit='complex-ast', rlimit=30),
     'decimal-ast': dict(unit='decimal-ast', rlimit=30, multiple_errors=40),
     'f64-ast': dict(unit='f64-ast', rlimit=30),
+    'number-ast': dict(unit='number-ast', rlimit=30),
     'i64-tok': dict(unit='i64-tok', rlimit=30), 'f64-tok': dict(unit='f64-tok', rlimit=30), 'number-tok': dict(unit='number-tok', rlimit=30),
     'decimal-tok': dict(unit='decimal-tok', rlimit=30), 'complex-tok': dict(unit='complex-tok', rlimit=30),
     'i64-glue': dict(unit='i64-glue'), 'f64-glue': dict(unit='f64-glue'), 'number-glue': dict(unit='number-glue'), 'decimal-glue': dict(unit='decimal-glue'), 'complex-glue': dict(unit='complex-glue'),
@@ -68,26 +69,34 @@ AST_ASSUME = [
     'A-64bit: usize is 64 bits wide',
     'T1 (error type), T2 (derived Clone of Node is structural), T5, T12, T13, T14 extraction rewrites (DESIGN 4.2)',
 ]
-ALL_V = ['i64-ast', 'decimal-ast', 'complex-ast', 'f64-ast'] + PARSERS + TOKS + GLUES
+F64_ASSUME = [
+    'A-ieee (Verus units f64-ast, number-ast; contracts/f64_prims.vinc): every f64 operator, comparison, libm method, constant and int<->float cast is an uninterpreted, total, deterministic function of its operands (IEEE arithmetic never panics); '
+    'what is proved is which primitive is applied to which values, not its bit-level meaning',
+    'T20 (unary minus on floats), T8 (f64 constants), T22 (int<->float casts), T15 (`x op= e` read as `x = x op (e)`), T14 (`/` on i64 is truncated division, panics on 0 and MIN / -1), '
+    'T12 (the any-NaN test; the sort idiom: its comparator unwraps partial_cmp, which is None only for NaN, and the sort returns a permutation) extraction rewrites: every helper body is the original primitive',
+    'literal facts (contracts/f64_header.vinc): a double that is neither > 170.0 nor < 0.0 casts to a usize <= 170; counting 0.0 + 1.0 + .. up to 64 is exact; an i64 converted to f64 is never NaN',
+]
+ALL_V = ['i64-ast', 'decimal-ast', 'complex-ast', 'f64-ast', 'number-ast'] + PARSERS + TOKS + GLUES
 
 PLAN = {
-    'C01': dict(verus=ALL_V, kani=['i64-ast', 'f64-ast', 'number-ast', 'number-l4'], level='proof', assumptions=AST_ASSUME + PARSER_ASSUME + ['A-stack, A-alloc: stack exhaustion and allocation failure are not modelled'],
-                unclaimed=['aggregates of eval_f64 / eval_number with two or more arguments (beyond CBMC)', 'eval_* glue (L4)']),
-    'C02': dict(verus=ALL_V, kani=['f64-ast', 'number-ast'], level='proof', assumptions=AST_ASSUME + PARSER_ASSUME,
+    'C01': dict(verus=ALL_V, kani=['i64-ast', 'f64-ast', 'number-ast', 'number-l4'], level='proof', assumptions=AST_ASSUME + F64_ASSUME + PARSER_ASSUME + ['A-stack, A-alloc: stack exhaustion and allocation failure are not modelled'],
+                unclaimed=['stack exhaustion on deeply nested input (A-stack)']),
+    'C02': dict(verus=ALL_V, kani=['f64-ast', 'number-ast'], level='proof', assumptions=AST_ASSUME + F64_ASSUME + PARSER_ASSUME,
                 unclaimed=[
                            'the global bound 4096 + 256*len is derived on paper from the per-function measures, not machine-checked']),
-    'C10': dict(verus=ALL_V, kani=['i64-ast', 'f64-ast', 'number-ast', 'number-l4'], level='proof', assumptions=AST_ASSUME + PARSER_ASSUME,
-                unclaimed=['function names / aliases (tokenizer keyword arms)', 'numerical accuracy of libm-backed functions, gamma, Lambert W',
-                           'eval of decimal / complex']),
-    'C11': dict(verus=ALL_V, kani=['f64-ast', 'number-ast'], level='proof', assumptions=AST_ASSUME + PARSER_ASSUME,
-                unclaimed=['aggregates of eval_f64 / eval_number / eval_decimal (L3)']),
-    'C13': dict(verus=PARSERS + GLUES + ['f64-ast'], kani=['f64-ast', 'number-ast'], level='proof', assumptions=PARSER_ASSUME + GLUE_ASSUME,
+    'C10': dict(verus=ALL_V, kani=['i64-ast', 'f64-ast', 'number-ast', 'number-l4'], level='proof', assumptions=AST_ASSUME + F64_ASSUME + PARSER_ASSUME,
+                unclaimed=['function names / aliases as text (tokenizer keyword arms)', 'numerical accuracy of libm-backed functions, gamma, Lambert W (A-libm: which primitive is applied to which operands is proved, not what it computes)']),
+    'C11': dict(verus=ALL_V, kani=['f64-ast', 'number-ast'], level='proof', assumptions=AST_ASSUME + F64_ASSUME + PARSER_ASSUME,
+                unclaimed=['the value of eval_decimal aggregates (error propagation and panic-freedom only)',
+                           'med of two or more arguments in eval_f64 / eval_number / eval_decimal beyond: NaN if any argument is NaN, no panic (the middle of a sorted permutation is not a function of the multiset when 0.0 and -0.0 both occur)',
+                           'independence of the argument order: the code is proved to compute the left fold of the binary min / max / gcd / lcm; that these folds are order-independent is mathematics not machine-checked here']),
+    'C13': dict(verus=PARSERS + GLUES + ['f64-ast', 'number-ast'], kani=['f64-ast', 'number-ast'], level='proof', assumptions=PARSER_ASSUME + GLUE_ASSUME,
                 unclaimed=['alias spellings as text (tokenizer keyword arms map names to tokens: verified for panic-freedom and progress only); what is proved for aliases is that the alias nodes '
                            '(Arsinh/Arcosh/Artanh ..) apply the same primitive']),
-    'C14': dict(verus=ALL_V, kani=['f64-ast', 'number-ast'], level='proof', assumptions=AST_ASSUME + PARSER_ASSUME,
+    'C14': dict(verus=ALL_V, kani=['f64-ast', 'number-ast'], level='proof', assumptions=AST_ASSUME + F64_ASSUME + PARSER_ASSUME,
                 unclaimed=[]),
     'C05': dict(verus=['f64-ast', 'f64-parser', 'f64-glue'], kani=['f64-ast'], level='proof',
-                assumptions=KANI_ASSUME + ['constants pi and e: the parser inserts std::f64::consts::PI / E (T8: their bit patterns are not re-proved)'],
+                assumptions=F64_ASSUME + KANI_ASSUME + ['constants pi and e: the parser inserts std::f64::consts::PI / E (T8: their bit patterns are not re-proved)'],
                 unclaimed=['value of / and % on the full operand domain (bounded stand-ins only; full-domain division is tried in the thorough tier)',
                            'numerical behaviour of the platform pow / sqrt (A-libm)']),
     'C07': dict(verus=['decimal-ast', 'decimal-parser', 'decimal-tok', 'decimal-glue'], level='proof',
@@ -101,32 +110,29 @@ PLAN = {
                              'what is proved for * / ^ pow sqrt root exp exp2 ln lb log abs and the trigonometric / hyperbolic functions is which num_complex operation is applied to which operands in which order'],
                 unclaimed=['the 1e-12 / 1e-9 closeness of num_complex operations to the textbook definitions', '`pi` staying the constant next to `p` + `i` (keyword arms)',
                            'agreement with eval_f64 on real operands']),
-    'C09': dict(verus=['number-tok', 'number-glue'], kani=['number-ast', 'number-l4'], level='proof', assumptions=KANI_ASSUME + TOK_ASSUME,
-                unclaimed=['value of Integer ^ Integer (Kani 0.68 mis-models this arm: its counterexamples do not replay natively)',
-                           'value of the Float quotient / remainder beyond the bounded domain', 'value of ^ with a Float operand (open obligations K:number-ast/step_pow_ff, _fi, _if: CBMC does not finish them)']),
-    'C15': dict(verus=['i64-ast', 'f64-ast'] + PARSERS, kani=['i64-ast', 'number-ast', 'f64-ast', 'number-l4'], tables_agree=True, level='proof',
-                assumptions=AST_ASSUME + KANI_ASSUME + PARSER_ASSUME + [
+    'C09': dict(verus=['number-ast', 'number-tok', 'number-glue'], kani=['number-ast', 'number-l4'], level='proof', assumptions=F64_ASSUME + KANI_ASSUME + TOK_ASSUME,
+                unclaimed=['bit-level meaning of the IEEE primitives (A-ieee in the Verus unit: each is an uninterpreted total function; Kani proves + - * unary minus abs and the rounding functions bit-exact, / and % on a bounded domain)']),
+    'C15': dict(verus=['i64-ast', 'f64-ast', 'number-ast'] + PARSERS, kani=['i64-ast', 'number-ast', 'f64-ast', 'number-l4'], tables_agree=True, level='proof',
+                assumptions=AST_ASSUME + F64_ASSUME + KANI_ASSUME + PARSER_ASSUME + [
                     'agreement is obtained as a corollary, not as one relational theorem: (1) eval_i64 returns Ok(v) only for the exact integer v (Verus, all trees) and eval_number returns Integer(exact) on Integer operands whenever it fits (Kani, per constructor), '
                     '(2) every Float / mixed arm of eval_number has the numeric value of the IEEE operation that the same arm of eval_f64 applies (Kani, per constructor, bit-exact), '
                     '(3) all five parsers refine spec parsers generated from tables that are identical on shared entries; the induction over the expression tree that combines (1)-(3) is on paper'],
-                unclaimed=['eval_complex vs eval_f64 and eval_decimal vs eval_f64 within 1e-9 (numerical: no contract here can express it)',
-                           'n! and ^ of eval_number on Integers (factorial is thorough-tier, Integer ^ Integer is an open obligation)',
-                           'min / max of two or more arguments in eval_number (beyond CBMC)']),
+                unclaimed=['eval_complex vs eval_f64 and eval_decimal vs eval_f64 within 1e-9 (numerical: no contract here can express it)']),
     'C17': dict(verus=PARSERS, features_sweep=True, level='proof',
                 assumptions=PARSER_ASSUME + ['cargo feature resolution; the all-features test suite is the baseline, the crate\'s unit tests are not re-run per subset',
                                              'the cfg-dependent text is only the category enum: per subset the derived order is re-proved by Kani and the build/export probe is compiled; '
                                              'the parsers are re-verified for both shapes of the enum (with and without the eval_i64 categories)'],
                 unclaimed=['"same result for every input as in the default build" follows from: nothing else is cfg-dependent (S:c17/cfg-frame) and the order of the remaining categories is unchanged; it is not a separately machine-checked relational theorem']),
-    'C18': dict(kani=['number-l4'], level='proof',
-                assumptions=['A-ieee: rustc/LLVM and CBMC agree on IEEE-754 binary64 comparison, floor and float->int casts',
+    'C18': dict(verus=['number-ast'], kani=['number-l4'], level='proof',
+                assumptions=F64_ASSUME[:2] + ['A-ieee: rustc/LLVM and CBMC agree on IEEE-754 binary64 comparison, floor and float->int casts',
                              'loop-free harness over kani::any::<f64>() / kani::any::<i64>(): every bit pattern, no bound'],
                 unclaimed=[]),
     'C19': dict(verus=TOKS, kani=['f64-ast', 'complex-ast'], level='proof', assumptions=TOK_ASSUME + KANI_ASSUME,
                 unclaimed=['that std str::parse::<f64> is correctly rounded, parse::<i64> exact and Decimal::from_str exact (A-std-parse: the conversions are uninterpreted)',
                            'the read-back clause: it needs the shape of std / rust_decimal / num_complex Display output (A-display), which no contract here can express; '
                            'what is proved towards it: the literal grammar accepted by the tokenizers, and that a prefix minus is an exact sign flip (Kani K:f64-ast/step_negative, K:complex-ast/step_negative, Verus i64 Negative)']),
-    'C20': dict(verus=ALL_V, kani=['f64-ast', 'number-ast'], level='proof', assumptions=AST_ASSUME + PARSER_ASSUME,
-                unclaimed=['eval of f64 / number / decimal / complex']),
+    'C20': dict(verus=ALL_V, kani=['f64-ast', 'number-ast'], level='proof', assumptions=AST_ASSUME + F64_ASSUME + PARSER_ASSUME,
+                unclaimed=[]),
 
     'C06': dict(
         verus=['i64-ast'], kani=['i64-ast'],
@@ -161,10 +167,10 @@ def kani_groups(pid, tier):
 _V = 'Verus proves, for all inputs and with no bound, the contracts spliced onto the real function text extracted from /repo on every run; '
 LEVEL_TEXT = {
     'C01': _V + 'owned obligations = every implicit panic obligation (arithmetic overflow, division by zero, shift range, index bounds, unwrap / callee preconditions incl. the panic conditions of rust_decimal stated in its contract header) of '
-                'all five tokenizers, all five parsers, the five public wrappers, and the evaluators of eval_i64, eval_decimal and eval_complex; for eval_f64 and eval_number Kani proves one harness per constructor over fully symbolic leaves '
+                'all five tokenizers, all five parsers, the five public wrappers and all five evaluators (every tree, any arity); for eval_f64, eval_number and eval_i64 Kani additionally proves one harness per constructor over fully symbolic leaves '
                 '(rustc overflow assertions and CBMC pointer / bounds checks on, all operand bit patterns). Two routines of eval_decimal are known findings.',
     'C02': _V + 'owned obligations = the decreases clauses of every loop and every (mutual) recursion in the tokenizers (measure: characters left; every token consumes at least one), the parsers (measure: tokens left), '
-                'eval_i64 / eval_decimal / eval_complex (structural recursion, Euclid, factorial, the capped ilog of eval_decimal); for eval_f64 and eval_number Kani proves the explicit iteration caps of factorial (170), Lambert W (128) and ilog (64) '
+                'all five evaluators (structural recursion, Euclid, factorial with its caps 170 / 20, Lambert W capped at 128 iterations, ilog capped at 64 steps); Kani cross-checks the caps of eval_f64 and eval_number '
                 'with unwinding assertions over the full operand domain. The global figure 4096 + 256*len is derived on paper from these per-function measures.',
     'C03': _V + 'every Parser method of the five evaluators refines a table-driven specification parser (Ok iff the spec parser accepts and the whole token stream is consumed); the tokenizers yield Eof exactly at the end of input; '
                 'the public wrappers return Err iff the stripped text does not parse. Owned: parse (Eof), check_paren, argument-list methods, reject exits, wrapper.',
@@ -173,22 +179,26 @@ LEVEL_TEXT = {
     'C06': _V + 'eval_i64::ast::eval returns the exact integer of the mathematical specification spec_eval or Err, for all trees; overflow obligations of every arithmetic arm are discharged; Kani cross-checks each arm with bit-vector semantics '
                 '(shifts as multiplication / floor division by 2^y) and supplies replayable counterexamples.',
     'C10': _V + 'arity and argument order of every function in all five parsers (refinement to the function table); exact integer functions of eval_i64; the mapping of every function node to the rust_decimal / num_complex operation (headers); '
+                'every function node of eval_f64 and eval_number applies the named IEEE / libm primitive to its children\'s values in the stated order (primitives uninterpreted), with Number::from applied to the result in eval_number; '
                 'Kani: every function arm of eval_f64 / eval_number / eval_i64 applies the named libm primitive once to the operands in the stated order (recording stubs), exact ones (abs, floor, ceil, trunc, round with ties away from zero, sgn(0)=0) bit-exactly.',
     'C11': _V + 'eval_i64 aggregates (min max avg med gcd lcm) for any arity against fold specifications over the sequence of argument values, error propagation; variadic argument lists and the empty-list policy in the four parsers that have them; '
-                'eval_decimal aggregates: error propagation and panic-freedom; eval_f64 / eval_number: single-argument path only (Kani, bounded).',
+                'eval_f64 and eval_number aggregates for any arity: min / max are the fold of the IEEE min / max (eval_number: of the comparison of the double values, keeping the argument) from the identity, avg is the left-to-right sum divided by the count, '
+                'med is NaN if any argument is NaN and the argument itself for one argument, a failing argument makes the aggregate fail; eval_decimal aggregates: error propagation and panic-freedom.',
     'C12': _V + 'implicit_multiply, its call sites and parse (Eof) refine the juxtaposition rule of the specification parser (trigger sets, operand level Multiplicative, node order, no literal after a literal, no product at @ / constants / superscripts / degree signs) in all five parsers.',
     'C13': _V + 'the notation arms (floor/ceil brackets, mod/pow functions, superscripts, prefix +, redundant brackets) build the same nodes as their synonyms, by refinement to the tables, in all five parsers; the public wrappers hand exactly '
                 'the whitespace-stripped text to the parser; the alias nodes apply the same primitive (Kani).',
     'C14': _V + 'the `@` arm yields the leaf holding the stored placeholder and takes no part in implicit multiplication; Parser::new stores the placeholder; the wrappers pass Some(placeholder) and return the evaluator\'s value unchanged; '
-                'the leaf arm of every evaluator returns its payload bit for bit (Verus i64 / decimal / complex, Kani f64 / number).',
-    'C20': _V + 'a bracketed group is parsed from level DefaultZero independently of its context (sp_group); every evaluator is a function of its children\'s values: contract against spec_eval (i64, decimal, complex), per-constructor Kani steps (f64, number).',
+                'the leaf arm of every evaluator returns its payload bit for bit (Verus, all five; Kani f64 / number again).',
+    'C20': _V + 'a bracketed group is parsed from level DefaultZero independently of its context (sp_group); every evaluator is a function of its children\'s values: the contract of eval against the recursive specification spec_eval in all five evaluators (Verus), plus per-constructor Kani steps (f64, number).',
 }
-LEVEL_TEXT['C18'] = ('Kani/CBMC proves two loop-free harnesses over the full input domain (all 2^64 doubles, all i64) that call the real, '
+LEVEL_TEXT['C18'] = ('Verus proves the contract of Number::from(f64) (Integer exactly when the value minus its floor is zero and the floor is in [i64::MIN as f64, i64::MAX as f64), the payload being the cast of the floor; Float(value) otherwise) and of Number::from(i64), which every caller in eval_number relies on. Kani/CBMC proves two loop-free harnesses over the full input domain (all 2^64 doubles, all i64) that call the real, '
                      'unmodified Number::from and assert the exact characterisation of the property; a loop-free full-domain harness is a complete proof.')
-LEVEL_TEXT['C05'] = ('Kani/CBMC proves one loop-free harness per Node constructor of eval_f64 over fully symbolic double leaves (every bit pattern): '
+LEVEL_TEXT['C05'] = ('Verus proves for all trees of eval_f64 (any arity, no bound) that every node applies the IEEE / libm primitive the property names to its children\'s values in the stated order, that no node turns a value into Err, '
+                     'and that the wrapper returns that value unchanged (the primitives themselves are uninterpreted total functions). Kani/CBMC proves one loop-free harness per Node constructor of eval_f64 over fully symbolic double leaves (every bit pattern): '
                      '+ - * unary minus abs floor ceil trunc round are bit-exact IEEE operations and never Err; ^ and sqrt apply powf / sqrt to the operands in order. '
                      '/ and % are proved total (never Err, never a panic) on the full domain; their value only on a bounded domain (labelled bounded, not counted).')
-LEVEL_TEXT['C09'] = ('Kani/CBMC proves one harness per Node constructor and operand-variant combination of eval_number over fully symbolic Integer/Float leaves: '
+LEVEL_TEXT['C09'] = ('Verus proves for all trees of eval_number (no bound): on Integer operands + - * % unary minus abs sgn, exact division, ^ with an exponent in 0..u32::MAX and n! (0..20) return Integer(exact mathematical result) whenever it fits i64 and otherwise the Float '
+                     'of the IEEE operation on the operands\' double values; every arm with a Float operand applies the IEEE / libm primitive to the double values; floor / ceil / round / trunc return Number::from(rounded value); Number::from(f64) is as C18 states. Kani/CBMC proves one harness per Node constructor and operand-variant combination of eval_number over fully symbolic Integer/Float leaves: '
                      'Integer results are exact when they fit and otherwise the Float of the operands, Float operands give the IEEE value, rounding functions return the rounded value, '
                      'plus Number::from over all doubles.')
 LEVEL_TEXT['C17'] = ('For each feature subset (quick: the 5 singletons, one pair and the full set; thorough: all 31) a generated probe crate is compiled against the crate built with exactly that subset '
